@@ -75,3 +75,83 @@ func wireExpr(e kvql.Expression) string {
 	walk(e, map[kvql.Expression]bool{})
 	return strings.Join(toks, ",")
 }
+
+// wireStmt serialises what Parser.Parse returns into the flat encoding of Kvql.Stmt.toWire
+// (see lean/Kvql/Model/Stmt.lean):
+//
+//	SEL,pos,all,nf,FIELD…,nn,hexname…,nt,type…,wpos,WHERE,ORDER,GROUP,LIMIT
+//	PUT,pos,n,(KEY,VALUE)…    REM,pos,n,KEY…    DEL,pos,wpos,WHERE,LIMIT
+//	ORDER = 0 | 1,pos,n,(hexname,order)…   GROUP = 0 | 1,pos,n,(hexname,EXPR)…   LIMIT = 0 | 1,pos,start,count
+func wireStmt(s kvql.Statement) string {
+	var toks []string
+	add := func(xs ...string) { toks = append(toks, xs...) }
+	limit := func(l *kvql.LimitStmt) {
+		if l == nil {
+			add("0")
+			return
+		}
+		add("1", fmt.Sprint(l.Pos), fmt.Sprint(l.Start), fmt.Sprint(l.Count))
+	}
+	switch x := s.(type) {
+	case *kvql.SelectStmt:
+		all := "0"
+		if x.AllFields {
+			all = "1"
+		}
+		add("SEL", fmt.Sprint(x.Pos), all, fmt.Sprint(len(x.Fields)))
+		for _, f := range x.Fields {
+			add(wireExpr(f))
+		}
+		add(fmt.Sprint(len(x.FieldNames)))
+		for _, n := range x.FieldNames {
+			add(hxs(n))
+		}
+		add(fmt.Sprint(len(x.FieldTypes)))
+		for _, t := range x.FieldTypes {
+			add(fmt.Sprint(int(t)))
+		}
+		if x.Where == nil {
+			add("?nil-where")
+		} else {
+			add(fmt.Sprint(x.Where.Pos), wireExpr(x.Where.Expr))
+		}
+		if x.Order == nil {
+			add("0")
+		} else {
+			add("1", fmt.Sprint(x.Order.Pos), fmt.Sprint(len(x.Order.Orders)))
+			for _, o := range x.Order.Orders {
+				add(hxs(o.Name), fmt.Sprint(int(o.Order)))
+			}
+		}
+		if x.GroupBy == nil {
+			add("0")
+		} else {
+			add("1", fmt.Sprint(x.GroupBy.Pos), fmt.Sprint(len(x.GroupBy.Fields)))
+			for _, g := range x.GroupBy.Fields {
+				add(hxs(g.Name), wireExpr(g.Expr))
+			}
+		}
+		limit(x.Limit)
+	case *kvql.PutStmt:
+		add("PUT", fmt.Sprint(x.Pos), fmt.Sprint(len(x.KVPairs)))
+		for _, kv := range x.KVPairs {
+			add(wireExpr(kv.Key), wireExpr(kv.Value))
+		}
+	case *kvql.RemoveStmt:
+		add("REM", fmt.Sprint(x.Pos), fmt.Sprint(len(x.Keys)))
+		for _, k := range x.Keys {
+			add(wireExpr(k))
+		}
+	case *kvql.DeleteStmt:
+		add("DEL", fmt.Sprint(x.Pos))
+		if x.Where == nil {
+			add("?nil-where")
+		} else {
+			add(fmt.Sprint(x.Where.Pos), wireExpr(x.Where.Expr))
+		}
+		limit(x.Limit)
+	default:
+		add(fmt.Sprintf("?%T", s))
+	}
+	return strings.Join(toks, ",")
+}
